@@ -37,7 +37,7 @@ from engines import refstore, sqlgen
 
 BLOCK = 12          # statements per run
 GENERATED = 48      # seeded generated databases in the corpus
-KINDS = ('trunc', 'tok_del', 'tok_dup', 'tok_swap', 'tok_flip', 'chr_flip', 'stmt_drop', 'stmt_dup', 'stmt_swap', 'soup', 'redos')
+KINDS = ('tail', 'trunc', 'tok_del', 'tok_dup', 'tok_swap', 'tok_flip', 'chr_flip', 'stmt_drop', 'stmt_dup', 'stmt_swap', 'soup', 'redos')
 
 FLIP = {
     'number': ["'7'", '"00000000-0000-0000-0000-000000000007"', '7.5', 'TRUE', 'seven', '-7', '99999999999999999999999999',
@@ -49,7 +49,7 @@ FLIP = {
     'ident': ['123', "'ident'", 'TABLE', 'M', 'MC', '1C', 'R9', '_x'],
     'punct': [',', '(', ')', ';', '-', ''],
 }
-CHARS = "aZ0_'\"-;,()\n \t.\\\x00éR1"
+CHARS = "aZ0_'\"-;,()\n \t.\\\x00éR1\xa0\x0b\u2028&"
 SOUP = ['CREATE', 'TABLE', 'INSERT', 'INTO', 'VALUES', 'ROP', 'REF_ID', 'FROM', 'TO', 'PHRASE', 'UNIQUE', 'INDEX', 'ON',
         'TRUE', 'FALSE', 'X', 'Y', 'Id', 'INTEGER', 'STRING', 'M', 'MC', '1', '1C', 'R1', 'R22', '(', ')', ',', ';', '-',
         '5', '0.5', "'s'", "''", '"00000000-0000-0000-0000-000000000001"', '-- c\n', '\n', 'I1']
@@ -146,9 +146,12 @@ def mentioned_kinds(stmt, rop=False):
     return out
 
 
+TAIL = ['\xa0', '\x0b', '\x1c', '\x85', '\u2028', '\u3000 \n', ' \xa0  \n\n', '&', '\\', '\x00', "'", '"', '--', '-']
+
+
 def enumerate_faults(stmt):
     '''every single-fault site of one statement: list of op dicts (without the statement index)'''
-    out = []
+    out = [{'k': 'tail', 'c': c} for c in range(len(TAIL))]
     for pos in range(len(stmt)):
         out.append({'k': 'trunc', 'p': pos})
     toks = [(k, a, b) for k, a, b in sqlgen.tokenize(stmt) if k != 'ws']
@@ -169,6 +172,9 @@ def apply_fault(stmt, f):
     k = f['k']
     if k == 'trunc':
         return stmt[:f['p']]
+    if k == 'tail':
+        # the first bytes of a torn next record: a stray character closes the text
+        return stmt + TAIL[f['c'] % len(TAIL)]
     if k == 'chr_flip':
         p = f['p']
         if p >= len(stmt):
